@@ -219,6 +219,7 @@ func (a *Automaton) Run() *Result {
 			return fmt.Sprintf("%p", v)
 		}
 		first := map[string]ssa.Value{}
+		relSet := map[ssa.Value]OrdSet{}
 		for _, b := range fn.Blocks {
 			if len(b.Instrs) == 0 {
 				continue
@@ -229,20 +230,41 @@ func (a *Automaton) Run() *Result {
 			}
 			v, _ := peelNot(ifi.Cond)
 			bo, ok := v.(*ssa.BinOp)
-			if ok && bo.Op != token.EQL && bo.Op != token.NEQ {
-				// the same relational test of an unmodified request/parameter
-				// field evaluated twice (`len(a.Entries) > 0` … `n := len(a.Entries);
-				// n > 0`) is one fact
-				dx, dy := a.P.D(bo.X), a.P.D(bo.Y)
-				if stableParamDesc(dx) && (stableParamDesc(dy) || constLike(dy)) && !writtenInFn(a.P, fn, dx) && !writtenInFn(a.P, fn, dy) {
-					key := "rel:" + dx + " " + bo.Op.String() + " " + dy
+			if ok {
+				// the same test of an unmodified request/parameter field
+				// evaluated twice, in whatever spelling (`len(a.Entries) > 0`,
+				// `n := len(a.Entries); n != 0`, `0 < len(…)`) is one fact.
+				// Facts are kept per descriptor pair as the ordering set of the
+				// true edge; a later test correlates when its set is the same or
+				// the complement.
+				cd := a.P.CondOf(v)
+				if cd.IsRel && stableParamDesc(cd.X) && (stableParamDesc(cd.Y) || constLike(cd.Y)) && !writtenInFn(a.P, fn, cd.X) && !writtenInFn(a.P, fn, cd.Y) {
+					all := AnyOrd
+					if cd.Y == "0" && NonNegative(cd.XV) {
+						all = EQ | GT
+					}
+					tset := cd.EdgeOrd(true) & all
+					key := "rel:" + cd.X + "|" + cd.Y
 					if f, ok := first[key]; ok {
-						canonOf[v] = f
-					} else {
+						fset := relSet[f]
+						switch {
+						case tset == fset:
+							canonOf[v] = f
+						case tset == all&^fset:
+							canonOf[v] = f
+							eqNeg[v] = true
+						}
+					} else if tset != 0 && tset != all {
 						first[key] = v
+						relSet[v] = tset
 						canonOf[v] = v
 					}
+					if _, done := canonOf[v]; done {
+						continue
+					}
 				}
+			}
+			if ok && bo.Op != token.EQL && bo.Op != token.NEQ {
 				continue
 			}
 			if !ok {
